@@ -406,7 +406,9 @@ def run_history(sc: dict, wall_limit: float = 30.0) -> dict:
     async def main() -> None:
         loop = asyncio.get_running_loop()
 
-        sim = scenario.Sim(copy.deepcopy({**sc, "peering": bool(sc.get("peering"))}))
+        logins = [h for h in sc.get("handlers", []) if h["kind"] == "login"]
+        sim = scenario.Sim(copy.deepcopy({**sc, "peering": bool(sc.get("peering")),
+                                          "handlers": [h for h in sc.get("handlers", []) if h["kind"] != "login"]}))
         rec = Rec(sim.now)
         out["rec"] = rec
 
@@ -473,6 +475,37 @@ def run_history(sc: dict, wall_limit: float = 30.0) -> dict:
         sim.obs.make_handler = make_handler  # type: ignore[method-assign]
         sim.registry = scenario.build_registry(sim.sc, sim.obs)
 
+        # login handlers (the "core" task `authenticator` runs them when the vault has no valid credentials left)
+        holder_op: dict[str, Any] = {}
+
+        def make_login(h: dict) -> Any:
+            calls = {"n": 0}
+
+            async def login(**kw: Any) -> Any:
+                import kopf
+                from kopf._cogs.structs import credentials
+                script = h.get("script", [])
+                action = script[calls["n"]] if calls["n"] < len(script) else h.get("default", "ok")
+                calls["n"] += 1
+                rec.add("hBegin", "login", h["id"], None, kw.get("retry"), None)
+                how = "ok"
+                try:
+                    if action == "perm":
+                        how = "raised:PermanentError"
+                        raise kopf.PermanentError("scripted: no credentials")
+                    if action == "none":
+                        return None
+                    return credentials.AiohttpSession(aiohttp_session=holder_op["op"].session, server="http://fake",
+                                                      default_namespace="default")  # type: ignore[arg-type]
+                finally:
+                    rec.add("hEnd", "login", h["id"], None, how, None)
+            login.__name__ = login.__qualname__ = h["id"]
+            return login
+
+        import kopf as _kopf
+        for h in logins:
+            _kopf.on.login(id=h["id"], registry=sim.registry, **(h.get("opts") or {}))(make_login(h))
+
         def on_request(req: dict) -> None:
             actor, ref = rec.ref()
             req["actor"] = actor
@@ -508,6 +541,7 @@ def run_history(sc: dict, wall_limit: float = 30.0) -> dict:
         with instrument(rec, poison):
             op = runner.Operator(c, sim.registry, sim.settings(), identity="op", **opkw)
             sim.ops["op"] = op
+            holder_op["op"] = op
             await op.start()
             assert op.task is not None and op.stop_flag is not None
 
@@ -544,6 +578,15 @@ def run_history(sc: dict, wall_limit: float = 30.0) -> dict:
                 elif kind == "new_crd":          # a CRD event makes the resource observer re-scan the group
                     extra_n += 1
                     c.add_resource(fakeapi.ResourceDef("kopf.dev", "v1", f"extras{extra_n}", f"Extra{extra_n}"))
+                elif kind == "unauthorized":     # the API answers 401 once: the credentials are invalidated, a re-login is due
+                    fired = {"n": 0}
+
+                    def rule401(req: dict, fired: dict = fired, n: int = int(args[0]) if args else 1) -> Any:
+                        if fired["n"] >= n or req["query"].get("watch"):
+                            return None
+                        fired["n"] += 1
+                        return fakeapi.Fault("status", 401)
+                    c.fault_rules.append(rule401)
                 elif kind == "crd_delete":       # the served CRD is deleted: its watch streams end, list/watch answer 404
                     c.remove_resource(kex)
                 elif kind == "crd_create":       # ... and created again
